@@ -120,6 +120,7 @@ def check_working(mgr, cs, col, where, label):
     pats = cs['patterns'] if cs.get('patterns') is not None else [None]
     refs = [set(R.settings_matrices(cs, p)) for p in pats]
     dvs = [int(dv.n_opts) for dv in mgr.design_vars]
+    where = dict(where, encoder=type(mgr.encoder).__name__)
     if max(len(r) for r in refs) <= 1 and dvs:
         col.violation('variables_declared_for_at_most_one_connection_set', cs,
                       {'dvs': dvs, 'n_matrices': [len(r) for r in refs], 'encoder': str(mgr.encoder), 'via': label}, [],
